@@ -103,4 +103,10 @@ META = {
   "note": "Wrong tokens are sampled (absent, random, one bit off, another wallet's); create_mwixnet_req is not driven.",
   "technique": "runtime monitoring: token sweep with database frame condition + masked/unmasked differential execution",
  },
+ "C16": {
+  "text": "Runtime monitoring: restores and repairs are run on chains produced by generated wallet activity, with node paging varied, and judged against chain truth read directly from grin_chain (UTXO membership, value, height, coinbase flag, maturity, account, balances) plus idempotence of a second scan.",
+  "design_ref": "DESIGN.md section 5 C16",
+  "note": "Chain truth covers every commitment the harness ever observed for the seed during the history.",
+  "technique": "runtime monitoring: chain-truth oracle over restore/repair scans on generated chain histories",
+ },
 }
